@@ -40,9 +40,11 @@ def _roles(ctx):
                 roles[(f.fq, p)] = 'gyro'
             elif p == 'accel_model':
                 roles[(f.fq, p)] = 'accel'
-        roles[(f.fq, 'error_model')] = 'ins'
-    changed = True
     mod = repo.module('filters')
+    for (ffq, var), t in ctx.types.types.items():
+        if t.endswith('error_model.InsErrorModel') and ffq.startswith(mod.name + '.'):
+            roles[(ffq, var)] = 'ins'
+    changed = True
     n = 0
     while changed and n < 5:
         changed = False
@@ -184,8 +186,11 @@ def layout_state(ctx):
         blocks = _canon_blocks(F)
         res[fq] = {}
         for name, (lo, hi, open_end, st) in F.slices.items():
-            if 'noise' in name:
-                continue
+            if lo is not None and any('n_noises' in a or 'n_output_noises' in a
+                                      for a in F.A.atoms_of(lo)) or \
+                    hi is not None and any('n_noises' in a or 'n_output_noises' in a
+                                           for a in F.A.atoms_of(hi)):
+                continue          # a slice over noise counters: LAYOUT-NOISE
             cls = _classify(F, lo, hi, open_end, blocks)
             if cls is None:
                 ctx.ob('LAYOUT-STATE', None, None, 'slice %s not expressed in model sizes' % name,
@@ -209,6 +214,26 @@ def layout_noise(ctx):
     F = _Fn(ctx, FUNCS[1])
     f = F.f
     A = F.A
+    # the noise-input matrix: left factor of the congruence handed to the discretisation
+    Gname = None
+    for n in ast.walk(f.node):
+        if isinstance(n, ast.Call) and f.module.resolve(n.func, f.local_names()) == \
+                'pyins.kalman.compute_process_matrices' and len(n.args) >= 2:
+            x = n.args[1]
+            while isinstance(x, ast.BinOp) and isinstance(x.op, ast.MatMult):
+                x = x.left
+            if isinstance(x, ast.Name):
+                Gname = x.id
+    ctx.need(Gname is not None, 'noise-input matrix of the discretisation call not identified')
+    # noise slices = slices used as the column index of stores into that matrix
+    noise_slices = set()
+    for st in f.node.body:
+        if isinstance(st, ast.Assign) and isinstance(st.targets[0], ast.Subscript) and \
+                norm_text(st.targets[0].value) == Gname and \
+                isinstance(st.targets[0].slice, ast.Tuple) and \
+                len(st.targets[0].slice.elts) == 2:
+            noise_slices.add(norm_text(st.targets[0].slice.elts[1]))
+    ctx.cache['noise-slices'] = noise_slices
     hs = [n for n in ast.walk(f.node) if isinstance(n, ast.Call) and
           f.module.resolve(n.func, f.local_names()) == 'numpy.hstack']
     ctx.need(len(hs) == 1 and isinstance(hs[0].args[0], (ast.Tuple, ast.List)),
@@ -231,7 +256,7 @@ def layout_noise(ctx):
            key='four', why='noise intensity vector is %s' % [b[0] for b in blocks])
     cls = {}
     for name, (lo, hi, open_end, st) in F.slices.items():
-        if 'noise' not in name:
+        if name not in noise_slices:
             continue
         c = _classify(F, lo, hi, open_end, blocks)
         if c is None:
@@ -249,9 +274,15 @@ def layout_noise(ctx):
                why='noise slice `%s` does not match any block of the noise vector %s'
                    % (norm_text(st), [b[0] for b in blocks]))
     ctx.floor('LAYOUT-NOISE', len(cls), 4, 'noise slices')
-    # total noise count
+    # total noise count = second dimension of the noise-input matrix
+    ncount = None
     for st in f.node.body:
-        if isinstance(st, ast.Assign) and norm_text(st.targets[0]) == 'n_noises':
+        if isinstance(st, ast.Assign) and norm_text(st.targets[0]) == Gname and \
+                isinstance(st.value, ast.Call) and st.value.args and \
+                isinstance(st.value.args[0], ast.Tuple) and len(st.value.args[0].elts) == 2:
+            ncount = norm_text(st.value.args[0].elts[1])
+    for st in f.node.body:
+        if isinstance(st, ast.Assign) and ncount and norm_text(st.targets[0]) == ncount:
             v = F.lin(st.value, st)
             ctx.ob('LAYOUT-NOISE', v is not None and A.eq(v, blocks[-1][2]), None,
                    'n_noises = sum of the four block sizes', f=f, node=st, key='total',
@@ -262,7 +293,7 @@ def layout_noise(ctx):
     sblocks = sb[FUNCS[1] if FUNCS[1] in sb else f.fq] if False else sb.get(FUNCS[1], {})
     for st in f.node.body:
         if isinstance(st, ast.Assign) and isinstance(st.targets[0], ast.Subscript) and \
-                norm_text(st.targets[0].value) == 'G' and \
+                norm_text(st.targets[0].value) == Gname and \
                 isinstance(st.targets[0].slice, ast.Tuple):
             r, c = [norm_text(e) for e in st.targets[0].slice.elts]
             nb = cls.get(c)
@@ -338,7 +369,8 @@ def layout_prov(ctx):
                 sens = {b for b in bl if b in ('gyro', 'accel')}
                 if not bl:
                     continue
-                if norm_text(st.targets[0].value) == 'G':
+                if fq == FUNCS[1] and any(i in ctx.cache.get('noise-slices', ())
+                                          for i in idx):
                     continue            # LAYOUT-NOISE
                 src = owners_in(st.value, st)
                 if not sens and not src:
@@ -675,8 +707,16 @@ def est_rules(ctx):
             ctx.ob('FB-LAYOUT', used == [role], None, '%s.update_estimates(x[%s])' % (role, role),
                    f=f, node=node, why='%s model is updated with block %s' % (role, used))
     # x is reset to zero for each epoch (estimates are fed back, not accumulated)
-    xz = [st for st in g.body if isinstance(st, ast.Assign) and norm_text(st.targets[0]) == 'x'
-          and norm_text(st.value).startswith('np.zeros(')]
+    # the fed-back error vector: first argument of kalman.correct
+    xname = None
+    for node in ast.walk(g):
+        if isinstance(node, ast.Call) and f.module.resolve(
+                node.func, f.local_names()) == 'pyins.kalman.correct' and node.args:
+            xname = norm_text(node.args[0])
+    xz = [st for st in g.body if isinstance(st, ast.Assign) and
+          norm_text(st.targets[0]) == xname and
+          isinstance(st.value, ast.Call) and
+          f.module.resolve(st.value.func, f.local_names()) == 'numpy.zeros']
     ctx.ob('FB-LAYOUT', len(xz) == 1 and g.body.index(xz[0]) < min(
         [g.body.index(s) for s in g.body if isinstance(s, ast.For)] or [99]), None,
            'error vector starts at zero for every epoch', f=f, node=(xz[0] if xz else g),
